@@ -95,7 +95,11 @@ Proof. exact (MerkleProofs.prove_merkle_complete sha3_256). Qed.
 Print Assumptions prove_merkle_complete.
 
 (* a verifying path with the side flags of position i is the honest path of exactly that leaf -- or it exhibits two
-   different byte strings with the same SHA3-256 digest *)
+   different byte strings with the same SHA3-256 digest.
+   The side flags are the position the path claims.  Without fixing them the statement ("any verifying path of the honest
+   length other than the honest path yields a collision") is false for two collision-free reasons: swapping the sides of a
+   node that is its own sibling (the duplicated last node of an odd level) names the same pair, and when a leaf VALUE occurs
+   at two positions the honest path of the other position verifies as well. *)
 Theorem prove_merkle_sound_or_collision : forall leaves i x path root,
   Forall (fun l => length l = 32%nat) leaves -> (i < length leaves)%nat -> length x = 32%nat ->
   Forall (fun p => length (part_hash p) = 32%nat) path ->
